@@ -747,7 +747,7 @@ class CSSMatch(_DocumentNav):
 
                 # Can't match a prefix attribute as we haven't specified one to match
                 # Try to match it normally as a whole `p:a` as selector may be trying `p\:a`.
-                if ns is None:
+                if ns is None and prefix != '*':
                     if (self.is_xml and attr == k) or (not self.is_xml and util.lower(attr) == util.lower(k)):
                         value = v
                         break
@@ -756,8 +756,12 @@ class CSSMatch(_DocumentNav):
                     # Ignore the false positive message.
                     continue  # pragma: no cover
 
+                # `*|attr` matches the attribute in any namespace, or in none
+                if prefix == '*':
+                    if namespace is None:
+                        name = k
                 # We can't match our desired prefix attribute as the attribute doesn't have a prefix
-                if namespace is None or (ns != namespace and prefix != '*'):
+                elif namespace is None or ns != namespace:
                     continue
 
                 # The attribute doesn't match.
